@@ -1022,7 +1022,7 @@ func main() {
 			"multi-core reads run free (Go scheduler); the systematic schedule exploration of the reader is C28's/E3's job — here the number of cores is an input dimension",
 			"the caller finishes with Writer.Flush() (as pbf_test.go does); the writer has no Close",
 		},
-		QuickDeadline:    100 * time.Second,
+		QuickDeadline:    150 * time.Second,
 		ThoroughDeadline: 15 * time.Minute,
 		CaseTimeout:      120 * time.Second,
 		Chunk:            20,
@@ -1055,8 +1055,12 @@ func main() {
 			n += int64(len(ms))
 			probeStart := n
 			n += 4
-			bound += fmt.Sprintf("M: %d macro sequences (block size 8000); P: order probe with 1..4 cores; every file read with cores 1,2,3,4", len(ms))
+			bound += fmt.Sprintf("M: %d macro sequences (block size 8000); P: order probe with 1..4 cores; every file read with cores 1,2,3,4 (quick: sections L and M with cores 1,2,4)", len(ms))
 			cores := []int{1, 2, 3, 4}
+			coresLM := cores // sections L and M
+			if tier != "thorough" {
+				coresLM = []int{1, 2, 4}
+			}
 			return kit.FuncSpace{N: n, F: func(i int64) kit.Result {
 				var r kit.Result
 				switch {
@@ -1070,7 +1074,7 @@ func main() {
 				case i >= macroStart:
 					m := ms[i-macroStart]
 					seq := m.build()
-					check(&r, seq, "macro "+m.name, []bool{false}, cores)
+					check(&r, seq, "macro "+m.name, []bool{false}, coresLM)
 					r.Nontrivial = true
 					r.Key = "macro:" + m.name
 					if i == macroStart {
@@ -1089,7 +1093,11 @@ func main() {
 				if len(seq) <= 3 {
 					variants = []bool{false, true}
 				}
-				check(&r, seq, describe(seq), variants, cores)
+				if sec == secs[0] {
+					check(&r, seq, describe(seq), variants, cores)
+				} else {
+					check(&r, seq, describe(seq), variants, coresLM)
+				}
 				if len(elementsOnly(seq)) > 0 {
 					r.Nontrivial = true
 					r.Key = describe(seq)
